@@ -32,6 +32,7 @@ RET = {
     "p4": "(u64, Option<String>)",
     "p5": "(u64, (String, Vec<u8>))",
     "p6": "(u64, Box<String>)",
+    "p7": "(u64, u8, String)",
     "r0": "Result<(u64, String), (u64, String)>",
     "r1": "std::result::Result<(u64, Vec<u8>), (u64, String)>",
     "r2": "Result<UserVal, UserVal>",
@@ -66,7 +67,7 @@ def sweep(kind, scope, n_per_policy, family):
             w = None
             if pol == "tlru":
                 w = rnd.choice([None, "0.3", "1.5", "2", "0.1", "3.0"])
-            ret = rnd.choice(["p0", "p1", "p2", "p3", "p4", "p5", "p6"]) if m else "p0"
+            ret = rnd.choice(["p0", "p1", "p2", "p3", "p4", "p5", "p6", "p7"]) if m else "p0"
             add(kind=kind, scope=scope, policy=pol, limit=l, ttl=t, mem=m, weight=w, ret=ret, family=family)
 
 
